@@ -646,6 +646,22 @@ class TrajectoryStore:
                     'specified for associated NetCDF file'
                 )
 
+            # The species dimension of the new file was fixed by the first
+            # result: values for other species cannot be stored, and must not
+            # be dropped silently.
+            for fs in assoc_field_sets:
+                for f, metadata in fs.fields.items():
+                    if Dimension.SPECIES in metadata.dimensions:
+                        extra = set(getattr(associated_data, f).keys()) - set(
+                            nc_info.species or []
+                        )
+                        if extra:
+                            raise ValueError(
+                                f'Result of mapping_function for trajectory {i} has '
+                                f'species {sorted(sp.name for sp in extra)} in field '
+                                f'"{f}" that the first result did not have'
+                            )
+
             # Write data for field set to associated file.
             self._write_data(
                 single_nc_file=nc_info,
